@@ -24,6 +24,7 @@ RULE = (
     "one measure, a skipped measure or player, keysounds, or the empty stream; distinct = distinct case JSON"
 )
 RULE += " " + 'Added after the seeding rounds: a crowded keysounded row longer than 64 characters (also as very first row); before every checked call the same beats are built from floats and one call with an out-of-range column is made and its outcome ignored (process history that must not matter).'
+RULE += " " + "Round 7: another NoteData with another column count is built between building the checked object and using it; in multi-player streams the next player's first note may repeat the previous player's last one."
 ASSUMPTIONS = ["the decoder is validated by C07", "structural reading of the canonical text: '&' and ',' lines separate sections and measures"]
 
 CELL = re.compile(r"([^\[\]])(?:\[(\d+)\])?")
